@@ -618,9 +618,14 @@ theorem tyC_enum (l : Bool) (a b : EAttr) (vs us : Variants) (k : Nat) (fvs : Li
       rw [Dec.bind_run, Dec.bind_run, array_enc 2 _ (by decide)]
       simp only [beq_self_eq_true, if_true, Dec.pure_run]
       rw [Dec.bind_run, intAcc_u32 _ _ hidx]
-      simp
-    · simp only [if_true, List.nil_append, Dec.bind_run, Dec.pure_run, intAcc_u32 _ _ hidx]
-      simp
+      simp only [Int.toNat_natCast]
+      exact wrapperEnd_false_bind _ _
+    · simp only [if_true, List.nil_append]
+      rw [Dec.bind_run, Dec.pure_run]
+      simp only []
+      rw [Dec.bind_run, intAcc_u32 _ _ hidx]
+      simp only [Int.toNat_natCast]
+      exact wrapperEnd_false_bind _ _
   constructor
   · intro x hx rest
     simp only [projTy] at hx
